@@ -1,6 +1,7 @@
 package corr
 
 import (
+	"math"
 	"reflect"
 	"strconv"
 	"strings"
@@ -10,10 +11,10 @@ import (
 
 // Opts is the harness-side picture of DEQOptions.
 type Opts struct {
-	Nil       bool
-	PrecFx    int64 // precision in 2^-20 units; 0 = not set
-	Exclude   []string
-	Filter    []string
+	Nil     bool
+	PrecFx  int64 // precision in 2^-20 units; 0 = not set
+	Exclude []string
+	Filter  []string
 }
 
 func (o *Opts) build() *inspector.DEQOptions {
@@ -115,4 +116,74 @@ func OpDeq2(o *Out, ea, eb *TypeEntry, a, b reflect.Value, fl, fr Form) {
 	va := o.DeclareVal(ea, atok)
 	vb := o.DeclareVal(eb, btok)
 	o.Op("D2 " + ea.Tid + " " + eb.Tid + " " + string(fl) + " " + string(fr) + " " + va + " " + vb + " | " + oab + " " + oba + " " + mut)
+}
+
+// poisonFloats sets every float reachable from the settable value v (through non-nil pointers, slices, map
+// values, struct fields) to NaN; reports whether it found one.
+func poisonFloats(v reflect.Value) bool {
+	nan := math.NaN()
+	switch v.Kind() {
+	case reflect.Float32, reflect.Float64:
+		if v.CanSet() {
+			v.SetFloat(nan)
+			return true
+		}
+	case reflect.Ptr:
+		if !v.IsNil() {
+			return poisonFloats(v.Elem())
+		}
+	case reflect.Struct:
+		found := false
+		for i := 0; i < v.NumField(); i++ {
+			if poisonFloats(v.Field(i)) {
+				found = true
+			}
+		}
+		return found
+	case reflect.Slice:
+		found := false
+		for i := 0; i < v.Len(); i++ {
+			if poisonFloats(v.Index(i)) {
+				found = true
+			}
+		}
+		return found
+	case reflect.Map:
+		found := false
+		for _, k := range v.MapKeys() {
+			c := reflect.New(v.Type().Elem()).Elem()
+			c.Set(v.MapIndex(k))
+			if poisonFloats(c) {
+				v.SetMapIndex(k, c)
+				found = true
+			}
+		}
+		return found
+	}
+	return false
+}
+
+// OpDeqFormsNaN emits one `FA` record (see Driver/Main.lean): DeepEqual of an all-NaN variant of v with itself in
+// every argument form. Nothing is emitted when v holds no reachable float.
+func OpDeqFormsNaN(o *Out, e *TypeEntry, v reflect.Value) {
+	p := reflect.New(e.Type)
+	p.Elem().Set(DeepCopy(v))
+	if !poisonFloats(p.Elem()) {
+		return
+	}
+	q := reflect.New(e.Type)
+	q.Elem().Set(DeepCopy(v))
+	poisonFloats(q.Elem())
+	pp := reflect.New(p.Type())
+	pp.Elem().Set(p)
+	val := p.Elem().Interface()
+	outs := []string{
+		callDeq(e.Ins, val, val, nil),
+		callDeq(e.Ins, p.Interface(), p.Interface(), nil),
+		callDeq(e.Ins, pp.Interface(), pp.Interface(), nil),
+		callDeq(e.Ins, p.Interface(), q.Interface(), nil),
+		callDeq(e.Ins, val, p.Interface(), nil),
+	}
+	o.Op("FA " + e.Tid + " | " + strings.Join(outs, " "))
+	o.Count("nan-forms")
 }
